@@ -2,124 +2,168 @@
 
 For every generated source (tree / tree list / character matrix / taxon namespace, plain or hostile-decorated
 with comments, plain / attribute-bound / nested annotations, annotation values and extra attributes that point
-back into the structure, encoded bipartitions, cell annotations, character types and subsets) and every copy
-route of the public API the real copy is made and the monitors judge:
+back into the structure, encoded bipartitions, cell annotations, character types and subsets, boundary values
+of every copied scalar, derived Tree / Node / TreeList classes, sources that were used and edited before) and every
+copy route of the public API - in every spelling of the call - the real copy is made and the monitors judge:
 
   shared-mutable-object   object-graph walker (raw __dict__ / list / dict / set / tuple contents) from source and from
                           copy; an object of a mutable category (Tree, Node, Edge, Bipartition, Taxon, TaxonNamespace,
                           Annotation, AnnotationSet, TreeList, CharacterMatrix, CharacterDataSequence, CharacterType,
-                          CharacterSubset, any list/dict/set, any other instance) reachable from both must be in the
-                          route's documented shared set:
+                          CharacterSubset, a user-made StateAlphabet, any list/dict/set, any other instance) reachable
+                          from both must be in the route's documented shared set:
                              deepcopy, clone(2), X(src, taxon_namespace=other)            nothing
-                             Tree(t), clone(1), copy.copy(tree), taxon_namespace_scoped_copy,
-                             TreeList(l)/Matrix(m)/clone(1), extract_tree                 what the namespace reaches
+                             Tree(t), clone(), clone(1), copy.copy(tree), taxon_namespace_scoped_copy,
+                             X(src, taxon_namespace=<its own>), TreeList(l)/Matrix(m), extract_tree*   what the namespace reaches
                              TaxonNamespace(ns), copy.copy(ns)                            what its taxa reach
                              copy.copy / clone(0) of TreeList / matrix (documented shallow) namespace + the member trees / sequences
   namespace-not-shared    the namespace-scoped routes must hand back the source's namespace object (taxa are compared by
                           identity through the canonical names of the signature)
-  signature-differs       canonical signatures (raw fields; structure with back pointers, node / edge / tree labels, taxa,
-                          lengths, rooting, weight, ages, comments, annotations incl. nesting and bound owners, extra
-                          attributes, bipartitions and edge maps, namespace labels / comments / annotations, sequences,
-                          cell types, cell annotations, character types, subsets) of source and copy are equal component
-                          by component; extract_tree is compared on structure / node labels / taxa / lengths only and
-                          must carry no comments, annotations or extra attributes
+  signature-differs       canonical signatures (raw fields; structure with back pointers, classes of tree / nodes / edges,
+                          node / edge / tree labels, taxa, lengths, rooting, weight, ages, comments, annotations incl.
+                          nesting and bound owners, extra attributes, bipartitions and edge maps, namespace labels /
+                          comments / annotations, sequences, cell types, cell annotations, character types, subsets,
+                          content of user-made state alphabets, tree_type of a list) of source and copy are equal
+                          component by component
+  extract_tree            every extraction (default arguments, suppress_unifurcations False, no source reference, random
+                          node filters with both is_apply_filter_* flags, the four *_taxa / *_taxa_labels aliases,
+                          Node.extract_subtree below a non-seed node, tree / node factories) is compared node by node with a
+                          library-independent expectation computed from the raw source (_c12_extract): structure, node
+                          labels, taxa (identity), lengths (merged lengths added), edge labels, the source reference
+                          attribute; rooting and tree label through the signature; it must carry no comments,
+                          annotations or extra attributes, share only the namespace and be independent
   bound-annotation-*      every attribute-bound annotation of the copy whose source counterpart is bound to a structural
-                          object is bound to the copy's counterpart, and setting that attribute on the copy is what the
-                          annotation then shows
+                          object OR to an annotation is bound to the copy's counterpart, and setting that attribute on the
+                          copy is what the annotation then shows
   mutation-visible        mutation journal: every class of later change (structural edit, length, labels, rooting, weight,
                           annotation add / change / in-place / drop / nest / bind, comment, bipartition encode / edit,
                           extras, taxon label, namespace add / remove, list append / remove / reverse, cell set / append /
-                          delete, cell annotation, character type, subset) is applied to one side through the public API
-                          and the OTHER side's signature is re-taken: it must not move
+                          delete, cell annotation, character type, subset, new state in a user-made alphabet) is applied
+                          to one side through the public API and the OTHER side's signature is re-taken: it must not move
+  second copy             after the journal the (now edited) source is copied again, by the same or by another route: the
+                          result must be a new object, equal to the source as it is NOW, and must share with the FIRST
+                          copy only what both routes document as shared (state kept between calls)
   hooks                   populate_memo_for_taxon_namespace_scoped_copy seeds exactly {namespace, its taxa} -> themselves;
                           deep_copy_annotations_from re-targets annotations bound to the source onto the destination
-  source-changed          the source's own signature is the same before and after the route ran (returned or raised)
+  source-changed          the source's own signature - taken before ANY call - is the same after the route ran
+  malformed-copy          a route that hands back something the raw walk cannot read as a tree (wrong class, node without
+                          child list, node reached twice) is a violation of its own, never a harness error
   exceptions              no copy route documents an error for these sources: any exception is a violation.  Keys name the
                           operation as <kind>.<deep-route> for every route that runs the memo-driven deep-copy machinery
-                          (one root cause, one key) and mark sources that were themselves made by a copy constructor
-                          ([src=ctor-copy]: such objects adopted the __dict__ of a temporary and differ from all others).
-                          RecursionError on a tree deeper than 150 levels has its own key (confirmed in DESIGN).
+                          (one root cause, one key) and mark sources that were themselves made by a copy constructor.
+                          RecursionError on a tree deeper than 150 levels has its own key PER ROUTE and only for the
+                          routes that run the recursive deep copy; anywhere else it is an ordinary unexpected exception.
   extract_tree()          with default arguments on a source that has outdegree-1 nodes: the parameter is documented as
-                          "only done if some nodes are excluded", so the outdegree sequence must be kept (own key); the
-                          remaining clauses are then judged on extract_tree(suppress_unifurcations=False)
+                          "only done if some nodes are excluded", so the outdegree sequence must be kept (own key); all
+                          other clauses are judged on that very copy against the merged expectation
 
-Soundness limits: state alphabets / state identities are library-wide singletons (copy returns self) and are not
-entered; the bit assignment of a copied namespace is C10's subject (recorded, not judged); changes to shared-by-design
-parts (taxa and namespace on namespace-scoped routes, member trees / sequences on shallow routes) are not applied;
-X(src, taxon_namespace=other) is compared on taxon labels (taxa are re-created by label; bipartition masks, namespace
-decorations not judged); X(src, label=...) is compared with the source as it looks under that label; shallow copies
-(copy.copy / clone(0) of tree lists and matrices) are judged on member identity, container independence and the
-top-level annotations only, and not at all on annotation values that refer to a member (clone(0) documents them as
-references, the implementation deep-copies them); TaxonNamespace.clone(1) returns the namespace itself (recorded);
-objects sharing one __dict__ are one object; data sets are excluded (documented non-copyable); trees deeper than
-100 levels are only built by the directed recursion-depth case; nodes carry taxa of the tree's namespace only;
-a mutation that raises is recorded, not judged."""
+Soundness limits: the module-level state alphabets are library constants (copy returns self) and state identities are
+documented read-only: neither is entered; a user-made alphabet is a mutable part like any other; the bit assignment of a
+copied namespace is C10's subject (recorded, not judged); changes to shared-by-design parts (taxa and namespace on
+namespace-scoped routes, member trees / sequences on shallow routes) are not applied; X(src, taxon_namespace=other) is
+compared on taxon labels (taxa are re-created by label; bipartition masks, namespace decorations not judged);
+X(src, label=L) is compared with the source as it looks under L, label=None may mean None or "not given"; shallow copies
+(copy.copy / clone(0) of tree lists and matrices) are not named by the statement: they are judged on member identity,
+container independence, label and top-level annotations only (tree_type, comments, alphabets are recorded, not judged);
+a merged length is judged only when every part is present, the label of a merged edge is not judged; the classes of an
+extracted tree's nodes are judged only when a factory was given; TaxonNamespace.clone(1) returns the namespace itself
+(recorded); objects sharing one __dict__ are one object; data sets are excluded (documented non-copyable); trees deeper
+than 80 levels are only built by the directed recursion-depth case (and a source that the journal made deeper is not
+copied a second time); nodes carry taxa of the tree's namespace only; a
+mutation that raises is recorded, not judged."""
 import copy
 import random
 import sys
+import warnings
 
 from .. import ref, gen, bridge, core
 from ..mon.hooks import Hooks
 from . import _c12_util as U
+from . import _c12_extract as X
 
 PROP = "C12"
 LEVEL = "exploration"
-TECHNIQUE = ("runtime monitoring: object-graph walker (shared id-sets per mutable category), canonical-signature equality and "
-             "a mutation journal around every public copy route; hooks on memo seeding and annotation re-targeting")
+TECHNIQUE = ("runtime monitoring: object-graph walker (shared id-sets per mutable category), canonical-signature equality, "
+             "a node-by-node extraction oracle, a mutation journal and a second copy of the edited source around every public "
+             "copy route; hooks on memo seeding and annotation re-targeting")
 LEVEL_TEXT = ("The real copy routes are run on generated, hostile-decorated sources; a walker over the raw object graph decides "
-              "which mutable objects both sides reach, canonical signatures decide equality, and a journal of later mutations "
-              "decides independence. The property held (or not) on the executions listed in the evidence file, nothing more.")
-LEVEL_NOTE = ("Trusted: the walker / signature / journal code in vf/props/_c12_util.py and C12.py, CPython's id(). Coverage is what "
-              "the workload reached: all shapes n <= 5, random trees <= 30 (quick) / <= 150 (thorough) leaves, every matrix type, "
-              "every copy route, every mutation class.")
+              "which mutable objects both sides reach, canonical signatures and an extraction oracle decide equality, a journal "
+              "of later mutations decides independence and a second copy decides that no state is kept between calls. The "
+              "property held (or not) on the executions listed in the evidence file, nothing more.")
+LEVEL_NOTE = ("Trusted: the walker / signature / journal / extraction-oracle code in vf/props/_c12_*.py and C12.py, CPython's id(). "
+              "Coverage is what the workload reached: all shapes n <= 5, random trees <= 30 (quick) / <= 150 (thorough) leaves, "
+              "every matrix type, every copy route and spelling, every mutation class.")
 RULE = ("cases = directed witnesses | all rooted shapes n<=4 x every tree route x {plain, decorated} (n=5: routes rotated by seed) | "
-        "random (kind in tree/treelist/matrix/namespace, route, decoration level, bipartition encoding, source-is-itself-a-copy "
-        "chain). non-trivial = the source has >= 2 members (nodes / trees / sequences / taxa) or >= 1 decoration and the route "
-        "returned a new object; distinct = (kind, route, chain, id-free canonical signature of the source)")
+        "random (kind in tree/treelist/matrix/namespace, route and its spelling / option vector, decoration level, boundary "
+        "values, derived classes, bipartition encoding, source used and edited before copying, source-is-itself-a-copy chain, "
+        "second copy after the journal). non-trivial = the source has >= 2 members (nodes / trees / sequences / taxa) or >= 1 "
+        "decoration and the route returned a new object; distinct = (kind, route, chain, id-free canonical signature of the source)")
 REACH = ["basemodel:Annotable.__deepcopy__", "basemodel:Annotable.deep_copy_annotations_from",
          "basemodel:AnnotationSet.__deepcopy__", "basemodel:DataObject.clone",
          "taxonmodel:TaxonNamespace.populate_memo_for_taxon_namespace_scoped_copy", "taxonmodel:TaxonNamespace.__deepcopy__",
          "taxonmodel:TaxonNamespace.__copy__", "taxonmodel:Taxon.__deepcopy__",
          "_tree:Tree._clone_from", "_tree:Tree.taxon_namespace_scoped_copy", "_tree:Tree.__copy__", "_tree:Tree.__deepcopy__",
-         "_tree:Tree.extract_tree", "_node:Node.extract_subtree", "_node:Node.__deepcopy__", "_edge:Edge.__deepcopy__",
+         "_tree:Tree.extract_tree", "_tree:Tree.extract_tree_with_taxa", "_tree:Tree.extract_tree_with_taxa_labels",
+         "_tree:Tree.extract_tree_without_taxa", "_tree:Tree.extract_tree_without_taxa_labels",
+         "_node:Node.extract_subtree", "_node:Node.__deepcopy__", "_edge:Edge.__deepcopy__",
          "treecollectionmodel:TreeList._clone_from", "treecollectionmodel:TreeList.__copy__",
          "treecollectionmodel:TreeList.taxon_namespace_scoped_copy",
          "charmatrixmodel:CharacterMatrix._clone_from", "charmatrixmodel:CharacterMatrix.__copy__",
          "charmatrixmodel:CharacterMatrix.taxon_namespace_scoped_copy", "container:OrderedSet.__deepcopy__", "container:OrderedCaselessDict.__deepcopy__"]
-MIN_EVENTS = {"copy-made": (2500, 40000), "shared-set-judged": (2500, 40000), "signature-judged": (2500, 40000),
-              "mutation-judged": (25000, 400000), "mutation-effective": (20000, 350000), "bound-follow-judged": (5000, 100000),
-              "memo-seed-judged": (800, 10000), "rebinding-judged": (20000, 400000), "source-unchanged-judged": (2500, 40000),
-              "extract-only-judged": (500, 8000)}
-ASSUMPTIONS = ["reachability is computed from raw __dict__ / list / tuple / dict / set contents; state alphabets and state "
-               "identities (library-wide singletons whose copy is the object itself) are not entered",
-               "objects that share one __dict__ are treated as one object (the copy constructors adopt the __dict__ of a temporary)",
-               "mutations go through the public API; a mutation that raises is recorded and not judged (C03's subject)"]
+MIN_EVENTS = {"copy-made": (5000, 25000), "shared-set-judged": (5000, 25000), "signature-judged": (5000, 25000),
+              "mutation-judged": (35000, 250000), "mutation-effective": (35000, 250000), "bound-follow-judged": (40000, 500000),
+              "memo-seed-judged": (1700, 10000), "rebinding-judged": (70000, 1000000), "source-unchanged-judged": (5000, 25000),
+              "extract-only-judged": (2000, 10000),
+              # monitors added by the audit round
+              "second-copy-judged": (1500, 5500), "extract-oracle-judged": (700, 3000), "extract-filtered-judged": (300, 1500),
+              "extract-merge-judged": (140, 650), "extract-unary-judged": (60, 350), "extract-nodes-judged": (9000, 100000),
+              "label-argument-judged": (600, 3000), "bound-to-annotation-judged": (11000, 160000),
+              "source:used-before-copy": (700, 4500), "source:edge-maps-filled": (140, 1200),
+              "source:derived-classes": (270, 1700), "source:boundary-values": (250, 1500), "source:user-made-alphabet": (100, 650),
+              "mutation:alphabet-add-state": (60, 450), "call:clone-default": (370, 2000), "call:clone(depth=)": (330, 1700),
+              "call:deepcopy(x {})": (100, 600), "call:nsscoped(memo={})": (80, 400), "call:nsscoped(memo=None)": (80, 400),
+              "extract-api:extract_tree": (500, 2300), "extract-api:Node.extract_subtree": (45, 200),
+              "extract-api:extract_tree_with_taxa": (35, 170), "extract-api:extract_tree_with_taxa_labels": (35, 170),
+              "extract-api:extract_tree_without_taxa": (30, 170), "extract-api:extract_tree_without_taxa_labels": (30, 160)}
+ASSUMPTIONS = ["reachability is computed from raw __dict__ / list / tuple / dict / set contents; the module-level state alphabets "
+               "(library constants whose copy is the object itself) and state identities (documented read-only) are not entered",
+               "objects that share one __dict__ are treated as one object",
+               "mutations go through the public API; a mutation that raises is recorded and not judged (C03's subject)",
+               "extraction: when an outdegree-1 node is deleted its child survives and the merged lengths are added"]
 CASE_TIMEOUT = 120
 
-TREE_ROUTES = ("deepcopy", "clone2", "ctor", "ctor-label", "clone1", "copy", "clone0", "nsscoped", "ctor-otherns",
-               "extract", "extract-noref")
-LIST_ROUTES = ("deepcopy", "clone2", "ctor", "ctor-label", "clone1", "nsscoped", "copy", "clone0", "ctor-otherns")
+TREE_ROUTES = ("deepcopy", "clone2", "ctor", "ctor-label", "clone1", "clone-default", "copy", "clone0", "nsscoped",
+               "ctor-otherns", "ctor-samens", "extract", "extract-noref", "extract-filtered")
+LIST_ROUTES = ("deepcopy", "clone2", "ctor", "ctor-label", "clone1", "clone-default", "nsscoped", "copy", "clone0",
+               "ctor-otherns", "ctor-samens")
 MATRIX_ROUTES = LIST_ROUTES
-NS_ROUTES = ("deepcopy", "clone2", "ctor", "ctor-label", "copy", "clone0", "clone1")
+NS_ROUTES = ("deepcopy", "clone2", "ctor", "ctor-label", "copy", "clone0", "clone1", "clone-default")
 ROUTES = {"tree": TREE_ROUTES, "treelist": LIST_ROUTES, "matrix": MATRIX_ROUTES, "ns": NS_ROUTES}
 CHAINS = (None, None, None, "ctor", "clone1", "deepcopy")
 DEEP_TREE = 150     # levels; deeper trees are only built by the directed recursion case
+MAX_DEPTH = 80      # levels of a generated tree (decorated trees near 100 levels already exhaust the interpreter's
+                    # recursion limit in the attribute-wise deep copy: the recorded recursion finding, not this workload's subject)
+EXTRACT_ROUTES = ("extract", "extract-noref", "extract-filtered")
 
 
 def share_mode(kind, route):
     if route in ("deepcopy", "clone2", "ctor-otherns"):
         return "none"
     if kind == "ns":
-        return "self" if route == "clone1" else "taxa"
+        return "self" if route in ("clone1", "clone-default") else "taxa"
     if kind in ("treelist", "matrix") and route in ("copy", "clone0"):
         return "shallow"
     return "ns"
 
 
+MODE_TEXT = {"none": "nothing", "ns": "only the namespace and its taxa", "taxa": "only the taxa",
+             "shallow": "only the namespace and the members", "self": "everything"}
+
+
 # --------------------------------------------------------------------------------------------
 def cases(tier, seed):
     for name in ("deep-caterpillar", "copy-of-constructed-copy", "untyped-cell-annotation", "extract-unifurcation",
-                 "treelist-of-constructed-copy", "matrix-of-constructed-copy"):
+                 "treelist-of-constructed-copy", "matrix-of-constructed-copy", "user-made-alphabet", "derived-classes",
+                 "extract-filtered-witnesses", "copy-twice"):
         yield {"kind": "directed", "name": name, "seed": seed}
     for n in range(1, 6):
         nshapes = len(gen.all_shapes(n))
@@ -132,7 +176,7 @@ def cases(tier, seed):
                     routes = (TREE_ROUTES[k], TREE_ROUTES[(k + 5) % len(TREE_ROUTES)])
                 for r in routes:
                     yield {"kind": "shape", "n": n, "idx": idx, "deco": deco, "route": r, "seed": seed}
-    nrand = 6000 if tier == "quick" else 50000
+    nrand = 6000 if tier == "quick" else 35000
     for i in range(nrand):
         yield {"kind": "random", "i": i, "seed": seed, "tier": tier}     # sizes depend on the tier; --replay re-runs the descriptor alone
 
@@ -217,7 +261,10 @@ def spec_depth(spec):
     return best
 
 
-def make_tree(rng, spec, deco, rooted, encode, ns=None, extra_taxa=0, internal_taxa=False, extras=True):
+def make_tree(rng, spec, deco, rooted, encode, ns=None, extra_taxa=0, internal_taxa=False, extras=True, classes=None,
+              boundary=False, dup_taxa=False):
+    """classes = (tree class, node class) or None for the library's own; boundary = falsy / unusual scalar values;
+    dup_taxa = the namespace holds unused taxa whose labels repeat or are empty."""
     import dendropy
     labels = sorted(set(ref.leaf_taxa(spec)))
     if internal_taxa:
@@ -232,9 +279,22 @@ def make_tree(rng, spec, deco, rooted, encode, ns=None, extra_taxa=0, internal_t
         if deco:
             rng.shuffle(allv)
         ns = dendropy.TaxonNamespace(allv, label=rng.choice([None, "taxa"]) if deco else None)
+        if dup_taxa:
+            # after the labels the builder looks up (it takes the first taxon of a label)
+            for lb in rng.sample(["X0", "X0", "", "x0"], rng.randint(1, 3)):
+                ns.add_taxon(dendropy.Taxon(label=lb))
         U.decorate_namespace(rng, ns, deco)
-    tree = bridge.build_tree(spec, ns, rooted, label=rng.choice([None, "tree%d" % rng.randint(0, 9)]) if deco else None)
+    lbl = rng.choice([None, "tree%d" % rng.randint(0, 9)]) if deco else None
+    if classes is None:
+        tree = bridge.build_tree(spec, ns, rooted, label=lbl)
+    else:
+        from . import _c12_sub as S
+        tree = S.build_tree(spec, ns, rooted, lbl, classes[0], classes[1])
+        if rng.random() < 0.5:
+            tree.sub_extra = {"instance attribute of a derived class": [1, 2]}
     U.decorate_tree(rng, tree, deco, encode=encode, extras=extras)
+    if boundary:
+        U.decorate_boundary(rng, tree)
     return tree
 
 
@@ -246,34 +306,61 @@ def random_tree_spec(rng, tier, nmax=None):
     shape = rng.choice([None, None, None, "caterpillar", "star", "balanced"])
     if shape == "caterpillar":
         n = min(n, 90)
-    spec = gen.random_spec(rng, n, p_poly=rng.choice([0, 0.3, 0.6]), p_unary=rng.choice([0, 0, 0.15]), shape=shape)
+    spec = gen.random_spec(rng, n, p_poly=rng.choice([0, 0.3, 0.6]), p_unary=rng.choice([0, 0, 0.15, 0.3 if n <= 30 else 0.15]),
+                           shape=shape)
     gen.decorate_lengths(spec, rng, rng.choice(gen.LENGTH_PATTERNS), root_length=rng.random() < 0.3)
-    if spec_depth(spec) > 100:
+    if spec_depth(spec) > MAX_DEPTH:
         spec = gen.random_spec(rng, min(n, 40), shape="balanced")
     return spec
 
 
-def make_source(kind, rng, tier, deco):
+def draw_classes(rng, p=0.15):
+    if rng.random() >= p:
+        return None
+    from . import _c12_sub as S
+    L = U.L.load()
+    return rng.choice([(S.SubTree, S.SubNode), (S.SubTree, L.Node), (L.Tree, S.SubNode), (S.PlainTree, S.PlainNode)])
+
+
+def make_source(kind, rng, tier, deco, ctx=None):
     """returns (source object, descriptor for the evidence)."""
     import dendropy
     if kind == "tree":
         spec = random_tree_spec(rng, tier)
         rooted = rng.choice([None, True, False])
         encode = rng.choice([None, None, "imm", "mut"])
-        src = make_tree(rng, spec, deco, rooted, encode, extra_taxa=rng.choice([0, 0, 2]), internal_taxa=rng.random() < 0.2)
-        return src, {"tree": ref.to_newick(spec)[:200], "rooted": rooted, "encode": encode}
+        classes = draw_classes(rng)
+        boundary = rng.random() < 0.2
+        dup = rng.random() < 0.1
+        src = make_tree(rng, spec, deco, rooted, encode, extra_taxa=rng.choice([0, 0, 2]), internal_taxa=rng.random() < 0.2,
+                        classes=classes, boundary=boundary, dup_taxa=dup)
+        if ctx is not None:
+            if classes:
+                ctx.ev("source:derived-classes")
+            if boundary:
+                ctx.ev("source:boundary-values")
+        return src, {"tree": ref.to_newick(spec)[:200], "rooted": rooted, "encode": encode,
+                     "classes": None if classes is None else [c.__name__ for c in classes], "boundary": boundary, "dup_taxa": dup}
     if kind == "treelist":
         n = rng.choice([1, 2, 3, 5, 8]) if tier == "quick" else rng.choice([1, 2, 4, 8, 15, 25])
         names = [gen.tname(i) for i in range(n)]
         k = rng.choice([0, 1, 2, 3, 5]) if tier == "quick" else rng.choice([0, 1, 2, 4, 8, 12])
         ns = dendropy.TaxonNamespace(names + ["X0"], label="taxa" if deco else None)
         U.decorate_namespace(rng, ns, deco)
-        tl = dendropy.TreeList(taxon_namespace=ns, label=rng.choice([None, "list"]))
+        classes = draw_classes(rng, 0.2)
+        if classes is None:
+            tl = dendropy.TreeList(taxon_namespace=ns, label=rng.choice([None, "list"]))
+        else:
+            from . import _c12_sub as S
+            lcls = rng.choice([dendropy.TreeList, S.SubList])
+            tl = lcls(taxon_namespace=ns, label=rng.choice([None, "list", ""]), tree_type=classes[0])
+            if ctx is not None:
+                ctx.ev("source:derived-classes")
         for j in range(k):
             spec = gen.random_spec(rng, n, p_poly=0.3, names=names)
             gen.decorate_lengths(spec, rng, rng.choice(gen.LENGTH_PATTERNS))
             tl.append(make_tree(rng, spec, deco if rng.random() < 0.7 else 0, rng.choice([None, True, False]),
-                                rng.choice([None, None, "imm"]), ns=ns))
+                                rng.choice([None, None, "imm"]), ns=ns, classes=classes, boundary=rng.random() < 0.15))
         if deco:
             if rng.random() < 0.6:
                 tl.comments.append("list comment")
@@ -282,7 +369,7 @@ def make_source(kind, rng, tier, deco):
                 U.annotate(rng, tl, bindable=("label",), refs=refs, depth=deco)
             if rng.random() < 0.3:
                 tl.xinfo = {"first": tl[0] if k else None, "k": [k]}
-        return tl, {"trees": k, "leaves": n}
+        return tl, {"trees": k, "leaves": n, "classes": None if classes is None else [c.__name__ for c in classes]}
     if kind == "matrix":
         mtype = rng.choice(U.MATRIX_TYPES)
         n = rng.choice([1, 2, 3, 5]) if tier == "quick" else rng.choice([1, 2, 4, 8, 16])
@@ -290,18 +377,24 @@ def make_source(kind, rng, tier, deco):
         untyped = rng.random() < 0.15
         m = U.build_matrix(rng, mtype, [gen.tname(i) for i in range(n)], deco, ncols, untyped_cell_annotations=untyped)
         U.decorate_namespace(rng, m.taxon_namespace, deco)
+        if ctx is not None and U.custom_alphabets(m):
+            ctx.ev("source:user-made-alphabet")
         return m, {"type": mtype, "taxa": n, "cols": ncols}
     if kind == "ns":
         n = rng.choice([0, 1, 2, 5, 9])
         labels = [gen.tname(i) for i in range(n)]
         if deco and n > 2 and rng.random() < 0.3:
             labels[1] = labels[0].lower()      # case variants of one label
-        ns = dendropy.TaxonNamespace(labels, label=rng.choice([None, "taxa"]),
+        if deco and n > 2 and rng.random() < 0.2:
+            labels[2] = rng.choice(["", labels[0], "0"])      # empty / repeated labels
+        ns = dendropy.TaxonNamespace(labels, label=rng.choice([None, "taxa", ""]),
                                      is_case_sensitive=rng.random() < 0.3)
         U.decorate_namespace(rng, ns, deco)
         if deco and rng.random() < 0.4:
             for t in ns:
                 ns.taxon_bitmask(t)
+        if deco and n and rng.random() < 0.3:
+            ns.get_taxon(labels[0])            # fills Taxon._lower_cased_label
         if deco and n and rng.random() < 0.3:
             ns.remove_taxon(ns[0])
         if deco and rng.random() < 0.3:
@@ -312,10 +405,61 @@ def make_source(kind, rng, tier, deco):
     raise ValueError(kind)
 
 
+def preuse(ctx, kind, src, rng):
+    """the source is used and edited through the public API before it is copied: lazily filled caches are filled,
+    1-3 journal mutations make encodings stale, orphan objects stay reachable through the maps."""
+    ctx.ev("source:used-before-copy")
+    trees = [src] if kind == "tree" else (list(src) if kind == "treelist" else [])
+    for t in trees:
+        if t.bipartition_encoding and rng.random() < 0.7:
+            try:
+                t.bipartition_edge_map
+                t.split_bitmask_edge_map
+                ctx.ev("source:edge-maps-filled")
+            except core.CaseTimeout:
+                raise
+            except Exception as e:
+                ctx.note("preuse-raised:edge-maps:%s" % type(e).__name__)
+    ns = src if kind == "ns" else src.taxon_namespace
+    if len(ns) and rng.random() < 0.5:
+        try:
+            ns.get_taxon(ns[0].label)
+            ns.taxon_bitmask(ns[0])
+        except core.CaseTimeout:
+            raise
+        except Exception as e:
+            ctx.note("preuse-raised:namespace:%s" % type(e).__name__)
+    v = U.View(kind, src)
+    # re-seeding can double the depth: deep sources keep their shape (see MAX_DEPTH)
+    deep_src = max([tree_depth(t) for t in trees] or [0]) > MAX_DEPTH // 2
+    j = U.Journal(rng, deep=True, prefix="u", skip=("struct-reseed",) if deep_src else ())
+    classes = j.classes(kind)
+    rng.shuffle(classes)
+    want = rng.randint(1, 3)
+    done = 0
+    for mclass in classes:
+        if done >= want:
+            break
+        try:
+            applied = j.apply(mclass, v)
+        except core.CaseTimeout:
+            raise
+        except Exception as e:
+            ctx.note("preuse-raised:%s:%s" % (mclass, type(e).__name__))
+            applied = True
+        if applied:
+            done += 1
+            v.take()
+
+
+NS_MODES = ("empty", "shuffled", "partial", "superset", "case-sensitive", "immutable-superset")
+
+
 def other_namespace(rng, src_ns):
+    """a target namespace for X(src, taxon_namespace=other); taxa are re-created / looked up by label."""
     import dendropy
     labels = [t.label for t in src_ns]
-    mode = rng.choice(["empty", "shuffled", "partial", "superset"])
+    mode = rng.choice(NS_MODES)
     if mode == "empty":
         return dendropy.TaxonNamespace(), mode
     if mode == "shuffled":
@@ -330,47 +474,236 @@ def other_namespace(rng, src_ns):
         return dendropy.TaxonNamespace(["Q0"] + sh), mode
     sh = labels[:]
     rng.shuffle(sh)
-    return dendropy.TaxonNamespace(["Q0"] + sh + ["Q1"]), mode
+    if mode == "case-sensitive":
+        return dendropy.TaxonNamespace(["Q0"] + [x for x in sh if rng.random() < 0.7], is_case_sensitive=True), mode
+    ns2 = dendropy.TaxonNamespace(["Q0"] + sh + ["Q1"])
+    if mode == "immutable-superset":
+        if len(set(labels)) != len(labels) or any(not isinstance(x, str) for x in labels):
+            return ns2, "superset"
+        ns2.is_mutable = False      # every label is present: nothing has to be added
+    return ns2, mode
 
 
-def make_copy(kind, route, src, rng):
-    """returns (copy, expected-label-or-None, target namespace for -otherns)."""
-    cls = type(src)
-    if route == "deepcopy":
-        return copy.deepcopy(src), None, None
-    if route == "clone2":
-        return src.clone(2), None, None
-    if route == "clone1":
-        return src.clone(1), None, None
-    if route == "clone0":
-        return src.clone(0), None, None
-    if route == "copy":
-        return copy.copy(src), None, None
-    if route == "nsscoped":
-        return src.taxon_namespace_scoped_copy(), None, None
-    if route == "ctor":
-        return cls(src), None, None
-    if route == "ctor-label":
-        return cls(src, label="given label"), "given label", None
-    if route == "ctor-otherns":
-        ns2, mode = other_namespace(rng, src.taxon_namespace)
-        return cls(src, taxon_namespace=ns2), None, ns2
+# --------------------------------------------------------------------------------------------
+# the call: route + spelling + option vector
+# --------------------------------------------------------------------------------------------
+class Plan(object):
+    """one concrete call of a copy route."""
+
+    def __init__(self, route):
+        self.route = route
+        self.fn = None              # () -> copy
+        self.spelling = route
+        self.tag = route            # short id of the spelling (event counter)
+        self.labels = None          # acceptable labels of the copy when label= was passed
+        self.ns2 = None             # target namespace of ctor-otherns
+        self.extract = None         # ExtractPlan
+
+
+class ExtractPlan(object):
+    def __init__(self):
+        self.api = "extract_tree"
+        self.start = None           # source node the extraction starts from
+        self.whole_tree = True      # False: Node.extract_subtree (returns a node)
+        self.is_excluded = lambda nd, is_leaf: False      # oracle-side meaning of the filter
+        self.filtered = False       # a filter was passed
+        self.suppress = True
+        self.attr = "extraction_source"
+        self.tree_type = None       # product of tree_factory when one was given
+        self.node_type = None       # product of node_factory when one was given
+        self.plain = None           # expectation without suppression, computed from the source BEFORE the call
+        self.gone = 0               # number of source nodes the filter removes
+        self.nothing_left = False
+        self.nothing_left_errors = ()
+
+
+def _label_choice(rng, src):
+    """label= argument of a copy constructor -> (value, acceptable labels of the copy)."""
+    k = rng.randrange(6)
+    if k == 0:
+        return "", [""]
+    if k == 1:
+        return src.label, [src.label]
+    if k == 2:
+        return None, [None, src.label]        # "None" may mean None or "not given": either is accepted
+    if k == 3:
+        return 0, [0]
+    return "given label", ["given label"]
+
+
+def has_unary(tree):
+    return any(len(U.raw_children(n)) == 1 for n in U.raw_preorder(tree))
+
+
+def plan_extract(route, src, rng):
+    from . import _c12_sub as S
+    p = Plan(route)
+    e = p.extract = ExtractPlan()
+    nodes = U.raw_preorder(src)
+    e.start = nodes[0]
     if route == "extract":
-        if has_unary(src):     # the default is judged separately (judge_extract_default_on_unary)
-            return src.extract_tree(suppress_unifurcations=False), None, None
-        return src.extract_tree(), None, None
+        p.fn = lambda: src.extract_tree()
+        p.spelling = "extract_tree()"
+        return p
     if route == "extract-noref":
-        return src.extract_tree(extraction_source_reference_attr_name=None, suppress_unifurcations=False), None, None
-    raise ValueError(route)
+        e.attr = None
+        e.suppress = False
+        p.fn = lambda: src.extract_tree(extraction_source_reference_attr_name=None, suppress_unifurcations=False)
+        p.spelling = "extract_tree(attr=None, suppress=False)"
+        return p
+    # ---- extract-filtered: API x filter x option vector ------------------------------------------
+    e.filtered = True
+    leaves = [n for n in nodes if not U.raw_children(n)]
+    all_taxa = all(n.__dict__.get("taxon") is not None for n in leaves)
+    str_labels = all(isinstance(n.taxon.label, str) for n in leaves) if all_taxa else False
+    apis = ["fn", "fn", "subtree"]
+    if all_taxa:
+        apis += ["with_taxa", "without_taxa"]
+    if str_labels:
+        apis += ["with_taxa_labels", "without_taxa_labels"]
+    api = rng.choice(apis)
+    kw = {}
+    sup = rng.choice([True, True, False, None])
+    if sup is not None:
+        kw["suppress_unifurcations"] = sup
+    e.suppress = sup is not False
+    attr = rng.choice(["<default>", "<default>", None, "origin"])
+    if attr != "<default>":
+        kw["extraction_source_reference_attr_name"] = attr
+        e.attr = attr
+    keep_p = rng.choice([0.0, 0.3, 0.3, 0.5, 0.5, 0.7, 0.7, 0.9, 0.9, 1.0])
+    if api in ("fn", "subtree"):
+        apply_leaf = rng.choice([True, True, False, None])
+        apply_int = rng.choice([False, True, None])
+        if apply_leaf is not None:
+            kw["is_apply_filter_to_leaf_nodes"] = apply_leaf
+        if apply_int is not None:
+            kw["is_apply_filter_to_internal_nodes"] = apply_int
+        al = apply_leaf is not False
+        ai = apply_int is True
+        start = nodes[0]
+        if api == "subtree":
+            inner = [n for n in nodes if U.raw_children(n)]
+            start = rng.choice(inner) if inner else nodes[0]
+        out = set()
+        for n in nodes:
+            if n is start:
+                continue          # a start node that is filtered out leaves nothing: not an extraction
+            pk = keep_p if not U.raw_children(n) else max(keep_p, 0.85)
+            if rng.random() >= pk:
+                out.add(id(n))
+        e.is_excluded = lambda nd, is_leaf: (al if is_leaf else ai) and id(nd) in out
+        kw["node_filter_fn"] = lambda nd: id(nd) not in out
+        if api == "subtree":
+            e.api = "Node.extract_subtree"
+            e.start = start
+            e.whole_tree = False
+            if rng.random() < 0.3:
+                kw["node_factory"] = S.PlainNode
+                e.node_type = S.PlainNode
+            p.fn = lambda: start.extract_subtree(**kw)
+        else:
+            if rng.random() < 0.25:
+                kw["tree_factory"] = lambda taxon_namespace: S.PlainTree(taxon_namespace=taxon_namespace)
+                e.tree_type = S.PlainTree
+            if rng.random() < 0.25:
+                kw["node_factory"] = S.PlainNode
+                e.node_type = S.PlainNode
+            p.fn = lambda: src.extract_tree(**kw)
+        p.spelling = "%s(%s)" % (e.api, ",".join(sorted(k for k in kw)))
+        return p
+    # taxon aliases: the filter is asked for leaves only; a leaf is kept / dropped by its taxon (object or label)
+    taxa = []
+    for n in leaves:
+        if n.taxon not in taxa:
+            taxa.append(n.taxon)
+    chosen = [t for t in taxa if rng.random() < keep_p]
+    if rng.random() < 0.3:
+        chosen += [t for t in src.taxon_namespace if t not in taxa][:2]       # taxa that no leaf carries
+    with_ = api.startswith("with_")
+    if api.endswith("labels"):
+        lbls = [t.label for t in chosen]
+        arg = rng.choice([list, set, tuple])(lbls)
+        inset = set(lbls)
+        e.is_excluded = lambda nd, is_leaf: is_leaf and ((nd.taxon.label in inset) != with_)
+    else:
+        arg = rng.choice([list, set, tuple])(chosen)
+        ids = set(id(t) for t in chosen)
+        e.is_excluded = lambda nd, is_leaf: is_leaf and ((id(nd.taxon) in ids) != with_)
+    meth = getattr(src, "extract_tree_" + api)
+    e.api = "extract_tree_" + api
+    p.fn = lambda: meth(arg, **kw)
+    p.spelling = "%s(%s)" % (e.api, ",".join(sorted(kw)))
+    return p
+
+
+def make_plan(kind, route, src, rng):
+    cls = type(src)
+    p = Plan(route)
+    if route in EXTRACT_ROUTES:
+        return plan_extract(route, src, rng)
+    if route == "deepcopy":
+        if rng.random() < 0.3:
+            p.fn, p.spelling, p.tag = (lambda: copy.deepcopy(src, {})), "copy.deepcopy(x, {})", "deepcopy(x {})"
+        else:
+            p.fn, p.spelling = (lambda: copy.deepcopy(src)), "copy.deepcopy(x)"
+    elif route in ("clone2", "clone1", "clone0"):
+        d = int(route[-1])
+        if rng.random() < 0.3:
+            p.fn, p.spelling, p.tag = (lambda: src.clone(depth=d)), "clone(depth=%d)" % d, "clone(depth=)"
+        else:
+            p.fn, p.spelling = (lambda: src.clone(d)), "clone(%d)" % d
+    elif route == "clone-default":
+        p.fn, p.spelling = (lambda: src.clone()), "clone()"
+    elif route == "copy":
+        p.fn, p.spelling = (lambda: copy.copy(src)), "copy.copy(x)"
+    elif route == "nsscoped":
+        k = rng.randrange(4)
+        if k == 0:
+            p.fn, p.spelling, p.tag = (lambda: src.taxon_namespace_scoped_copy(memo={})), "taxon_namespace_scoped_copy(memo={})", "nsscoped(memo={})"
+        elif k == 1:
+            p.fn, p.spelling, p.tag = (lambda: src.taxon_namespace_scoped_copy(memo=None)), "taxon_namespace_scoped_copy(memo=None)", "nsscoped(memo=None)"
+        else:
+            p.fn, p.spelling = (lambda: src.taxon_namespace_scoped_copy()), "taxon_namespace_scoped_copy()"
+    elif route == "ctor":
+        p.fn, p.spelling = (lambda: cls(src)), "X(src)"
+    elif route == "ctor-label":
+        val, p.labels = _label_choice(rng, src)
+        p.fn, p.spelling, p.tag = (lambda: cls(src, label=val)), "X(src, label=%r)" % (val,), "ctor(label=%s)" % ("None" if val is None else "source's" if X._atom(val) == X._atom(src.label) else repr(val))
+    elif route in ("ctor-otherns", "ctor-samens"):
+        kw = {}
+        if route == "ctor-otherns":
+            p.ns2, mode = other_namespace(rng, src.taxon_namespace)
+            target = p.ns2
+        else:
+            target, mode = src.taxon_namespace, "own"
+        legacy = rng.random() < 0.15
+        kw["taxon_set" if legacy else "taxon_namespace"] = target
+        if rng.random() < 0.3:
+            kw["label"], p.labels = _label_choice(rng, src)
+
+        def call():
+            if legacy:
+                with warnings.catch_warnings(record=True):      # the legacy keyword announces its deprecation
+                    warnings.simplefilter("always")
+                    return cls(src, **dict(kw))
+            return cls(src, **dict(kw))
+        p.fn = call
+        p.tag = "%s(%s%s)" % (route, "taxon_set=" if legacy else "", " label=" if "label" in kw else "")
+        if route == "ctor-otherns":
+            p.tag2 = "target-namespace:%s" % mode
+        p.spelling = "X(src, %s=<%s>%s)" % ("taxon_set" if legacy else "taxon_namespace", mode, ", label=%r" % (kw["label"],) if "label" in kw else "")
+    else:
+        raise ValueError(route)
+    return p
 
 
 # --------------------------------------------------------------------------------------------
 # the judge
 # --------------------------------------------------------------------------------------------
-EXTRACT_ONLY = ("structure", "node-labels", "taxa", "taxon-labels", "lengths")
 NS_COMPONENTS = ("ns-labels", "ns-flags", "ns-comments", "ns-annotations", "ns-extras")
 SAFE_BOUND = {"label": "vf-sentinel-label", "length": 12345.678, "weight": 12345.678, "age": 12345.678,
-              "xnum": 12345.678, "length_type": "vf-sentinel-lt"}
+              "xnum": 12345.678, "length_type": "vf-sentinel-lt", "datatype_hint": "vf-sentinel-hint"}
 
 
 def tree_depth(tree):
@@ -382,64 +715,167 @@ def tree_depth(tree):
     while stack:
         n, d = stack.pop()
         best = max(best, d)
-        for c in n._child_nodes:
+        for c in U.raw_children(n):
             stack.append((c, d + 1))
     return best
 
 
-def has_unary(tree):
-    return any(len(n._child_nodes) == 1 for n in U.raw_preorder(tree))
-
-
-DEEP_FAMILY = {"tree": ("deepcopy", "clone2", "ctor", "ctor-label", "clone1", "copy", "clone0", "nsscoped", "ctor-otherns"),
-               "treelist": ("deepcopy", "clone2", "ctor", "ctor-label", "clone1", "nsscoped", "ctor-otherns"),
-               "matrix": ("deepcopy", "clone2", "ctor", "ctor-label", "clone1", "nsscoped", "ctor-otherns"),
+DEEP_FAMILY = {"tree": ("deepcopy", "clone2", "ctor", "ctor-label", "clone1", "clone-default", "copy", "clone0", "nsscoped",
+                        "ctor-otherns", "ctor-samens"),
+               "treelist": ("deepcopy", "clone2", "ctor", "ctor-label", "clone1", "clone-default", "nsscoped", "ctor-otherns",
+                            "ctor-samens"),
+               "matrix": ("deepcopy", "clone2", "ctor", "ctor-label", "clone1", "clone-default", "nsscoped", "ctor-otherns",
+                          "ctor-samens"),
                "ns": ("deepcopy", "clone2")}
 
 
 def exc_op(kind, route, chain):
     """operation name used in the keys of exceptions and of stray bound owners: every route that runs the memo-driven
     deep copy machinery is one operation (one root cause must not spread over a dozen keys); a source that was itself
-    made by a copy constructor is marked, because those objects differ from all others (adopted __dict__)."""
+    made by a copy constructor is marked, because those objects differ from all others."""
     if chain == "ctor":
         return "%s.<any-route>[src=ctor-copy]" % kind
     return "%s.%s" % (kind, "<deep-route>" if route in DEEP_FAMILY[kind] else route)
 
 
-def attempt_copy(ctx, op, kind, route, src, rng, detail):
-    """run the route; classify exceptions.  Returns (ok, copy, expected_label, ns2)."""
+def attempt_copy(ctx, op, kind, route, src, plan, detail):
+    """run the route; classify exceptions.  Returns (ok, copy or exception)."""
     try:
-        cp, lbl, ns2 = make_copy(kind, route, src, rng)
-        return True, cp, lbl, ns2
+        return True, plan.fn()
     except core.CaseTimeout:
         raise
     except RecursionError as e:
         depth = max([tree_depth(t) for t in ([src] if kind == "tree" else list(src) if kind == "treelist" else [])] or [0])
-        if depth >= DEEP_TREE:
-            ctx.violation("deep-copy|RecursionError|tree-deeper-than-%d-levels" % DEEP_TREE,
+        if depth >= DEEP_TREE and route in DEEP_FAMILY[kind]:
+            # the recursive attribute-wise deep copy; the route is part of the key: a route that is iterative today
+            # (extract_tree, the shallow list / matrix copies) never gets this key
+            ctx.violation("deep-copy|RecursionError|tree-deeper-than-%d-levels|%s.%s" % (DEEP_TREE, kind, route),
                           "%s of a tree with %d levels raises RecursionError (attribute-wise recursive deep copy)" % (op, depth),
                           dict(detail, depth=depth, recursionlimit=sys.getrecursionlimit()))
         else:
             ctx.unexpected(op, e, detail)
+        return False, e
     except Exception as e:
-        ctx.unexpected(op, e, detail)
-    return False, None, None, None
+        ep = plan.extract
+        if ep is not None and ep.nothing_left and isinstance(e, ep.nothing_left_errors):
+            ctx.ev("extract:nothing-left-refused")
+            return False, e
+        if ep is not None and not ep.whole_tree and ep.suppress and ep.plain is not None and len(ep.plain.children) == 1 \
+                and type(e) is ValueError and not e.args:
+            # mechanism of its own: the start node is left with one child and would have to be merged away
+            ctx.violation("%s.%s|start-node-left-with-one-child-refused|ValueError" % (kind, route),
+                          "Node.extract_subtree below a non-seed node raises a bare ValueError when the filter leaves the "
+                          "start node with exactly one child (suppress_unifurcations on)", detail)
+            return False, e
+        if mode_is_shallow_of_derived_list(kind, route, src) and isinstance(e, TypeError):
+            # depth 0 is not named by the statement (recorded): TreeList.__copy__ builds a plain TreeList
+            ctx.note("shallow-copy-of-derived-list-class-raised-TypeError-not-judged")
+            return False, e
+        ctx.unexpected(op + (":" + ep.api if ep is not None and ep.filtered else ""), e, detail)
+        return False, e
 
 
-def judge(ctx, kind, route, src, rng, chain=None, detail=None, journal_steps=None, tier=None):
+def mode_is_shallow_of_derived_list(kind, route, src):
+    return kind == "treelist" and share_mode(kind, route) == "shallow" and type(src) is not U.L.TreeList
+
+
+def allowed_ids(kind, mode, src):
+    ns = src if kind == "ns" else src.taxon_namespace
+    if mode == "none":
+        return set()
+    if mode == "ns":
+        return U.Walk(ns).mutable_ids()
+    if mode == "taxa":
+        out = set()
+        for t in ns._taxa:
+            out |= U.Walk(t).mutable_ids()
+        return out
+    out = U.Walk(ns).mutable_ids()      # shallow
+    members = list(src._trees) if kind == "treelist" else list(src._taxon_sequence_map.values())
+    for mbr in members:
+        out |= U.Walk(mbr).mutable_ids()
+    if kind == "matrix":
+        out |= set(id(a) for a in U.custom_alphabets(src))
+    return out
+
+
+def report_shared(ctx, op, clause, bad, w_rep, w_other, text, detail, names=("copy", "source")):
+    reported = set()
+    for i in sorted(bad, key=lambda i: len(w_rep.path(i, 1000))):
+        cat = w_rep.seen[i][0]
+        k = (cat, w_rep.last_attr(i))
+        if k in reported:
+            continue
+        reported.add(k)
+        ctx.violation("%s|%s|%s@%s" % (op, clause, cat, k[1]),
+                      "%s reachable from %s and %s (%d such objects in all) although %s" % (cat, names[1], names[0], len(bad), text),
+                      dict(detail, **{"path_in_" + names[0]: w_rep.path(i), "path_in_" + names[1]: w_other.path(i)}))
+        if len(reported) >= 4:
+            break
+
+
+def expected_extraction(ctx, op, ep, cp_seed, detail):
+    """the expectation this copy is compared with (None = nothing may be left)."""
+    plain, gone = ep.plain, ep.gone
+    if plain is None:
+        return None
+    if not ep.suppress or not X.has_unary(plain):
+        return plain
+    merged = X.suppressed(plain)
+    if gone:
+        return merged
+    # nothing was excluded: documented as "entire tree structure is cloned" / "only done if some nodes are excluded"
+    ctx.ev("extract-unary-judged")
+    got = [len(U.raw_children(n)) for n in _raw_pre(cp_seed)]
+    if got == X.outdegrees(plain):
+        return plain
+    if ep.filtered:
+        key = "%s|unifurcations-suppressed-without-exclusion" % op
+        what = "%s with a filter that excludes no node" % ep.api
+    else:
+        key = "tree.extract|unifurcations-suppressed-without-filter"
+        what = "extract_tree() without a filter"
+    ctx.violation(key, "%s dropped %d outdegree-1 node(s) of its source" % (what, len(X.outdegrees(plain)) - len(got)),
+                  dict(detail, source_outdegrees=X.outdegrees(plain)[:40], copy_outdegrees=got[:40]))
+    return merged
+
+
+def _raw_pre(seed):
+    out, stack, seen = [], [seed], set()
+    while stack:
+        n = stack.pop()
+        if id(n) in seen or not isinstance(getattr(n, "__dict__", None), dict):
+            continue
+        seen.add(id(n))
+        out.append(n)
+        stack.extend(reversed(U.raw_children(n)))
+    return out
+
+
+def judge(ctx, kind, route, src, rng, chain=None, detail=None, journal_steps=None, tier=None, sibling=None, recopy=None):
+    """sibling = (first copy, its share mode, node attributes to skip in it) when this is the second copy of one source."""
     L = U.L.load()
     detail = dict(detail or {})
     detail.update({"kind": kind, "route": route, "chain": chain})
     op = "%s.%s" % (kind, route)
     opx = exc_op(kind, route, chain)
     mode = share_mode(kind, route)
-    extract = route.startswith("extract")
-    ignore = ("extraction_source",) if route == "extract" else ()
-    if route == "extract" and has_unary(src):
-        judge_extract_default_on_unary(ctx, src, detail)
+    extract = route in EXTRACT_ROUTES
+    # the source as it is before ANY call of the route
     sv = U.View(kind, src)
     src_before = sv.sig
-    ok, cp, want_label, ns2 = attempt_copy(ctx, opx, kind, route, src, rng, dict(detail, route=route))
+    plan = make_plan(kind, route, src, rng)
+    detail["call"] = plan.spelling
+    ep = plan.extract
+    if ep is not None:
+        ep.plain, ep.gone = X.expected(ep.start, ep.is_excluded)
+        ep.nothing_left = ep.plain is None
+        from dendropy.utility import error as dperror
+        ep.nothing_left_errors = (dperror.SeedNodeDeletionException, ValueError)
+    ctx.ev("call:%s" % plan.tag)
+    if getattr(plan, "tag2", None):
+        ctx.ev(plan.tag2)
+    ok, cp = attempt_copy(ctx, opx, kind, route, src, plan, dict(detail, route=route))
     # the route must not change its source, whether it returned or raised
     ctx.ev("source-unchanged-judged")
     moved = U.diff_components(src_before, sv.take())
@@ -447,70 +883,116 @@ def judge(ctx, kind, route, src, rng, chain=None, detail=None, journal_steps=Non
         ctx.violation("%s|source-changed-by-copying|%s" % (op, U.component_class(moved[0])),
                       "making the copy changed the source's %s" % moved[0],
                       dict(detail, where=U.first_difference(src_before[moved[0]], sv.sig[moved[0]], moved[0])))
+        src_before = sv.sig
     if not ok:
-        return
+        return None
     ctx.ev("copy-made")
     ctx.ev("copy-made:%s.%s" % (kind, route))
+    if ep is not None and ep.nothing_left:
+        # what an extraction that leaves nothing hands back is not stated anywhere: recorded
+        ctx.note("extract-with-nothing-left-returned-%s" % type(cp).__name__)
+        return None
     if mode == "self":
         ctx.note("ns.clone1-returns-the-namespace-itself" if cp is src else "ns.clone1-returns-new-object")
-        return
+        return None
     if cp is src:
         ctx.violation("%s|copy-is-the-source" % op, "the route returned its argument", detail)
-        return
+        return None
+    if sibling is not None and cp is sibling[0]:
+        ctx.violation("%s|second-copy-is-the-first-copy" % op,
+                      "copying the same source again returned the object of the first call (state kept between calls)", detail)
+        return None
+    ignore = ()
+    if ep is not None:
+        ignore = (ep.attr,) if ep.attr else ()
+        if not ep.whole_tree:
+            if not isinstance(cp, L.Node):
+                ctx.violation("%s|malformed-copy|not-a-node" % op, "Node.extract_subtree returned a %s" % type(cp).__name__, detail)
+                return None
+            if cp.__dict__.get("_parent_node") is not None:
+                ctx.violation("%s|signature-differs|structure" % op, "the extracted subtree's top node has a parent", detail)
+            # a node: judged inside a tree of our own (rooting / tree label are then not the library's)
+            cp = L.Tree(seed_node=cp, taxon_namespace=src.taxon_namespace)
+        want_type = ep.tree_type
+        if want_type is not None and type(cp) is not want_type:
+            ctx.violation("%s|signature-differs|factory-types" % op,
+                          "tree_factory's product is not what extract_tree returned (%s)" % type(cp).__name__, detail)
+    base_cls = {"tree": L.Tree, "treelist": L.TreeList, "matrix": L.CharacterMatrix, "ns": L.TaxonNamespace}[kind]
+    if not isinstance(cp, base_cls):
+        ctx.violation("%s|malformed-copy|not-a-%s" % (op, base_cls.__name__),
+                      "the route returned a %s" % type(cp).__name__, detail)
+        return None
     members = len(sv.nm.objs)
     if members >= 3 or any(src_before.get(k) for k in src_before if k.endswith("annotations")):
         ctx.nontrivial((kind, route, chain, U.idfree(src_before)))
 
+    # ---- the copy as the raw walk sees it ----------------------------------------------------
+    ignore_tree = ()
+    if extract and type(cp) is not L.Tree:
+        # attributes the class's own constructor makes are not "carried over"
+        try:
+            ignore_tree = tuple(k for k in type(cp)(taxon_namespace=src.taxon_namespace).__dict__ if k not in U.STD["Tree"])
+        except core.CaseTimeout:
+            raise
+        except Exception:
+            ignore_tree = ()
+    try:
+        w_cp = U.Walk(cp, skip_node_attrs=ignore)
+        cv = U.View(kind, cp, ignore_node_attrs=ignore, ignore_tree_attrs=ignore_tree)
+    except core.CaseTimeout:
+        raise
+    except Exception as e:
+        ctx.violation("%s|malformed-copy|unreadable:%s" % (op, type(e).__name__),
+                      "the raw walk over the copy failed: %s" % core.exc_brief(e), detail)
+        return None
+    if cv.nm.malformed:
+        ctx.violation("%s|malformed-copy|%s" % (op, cv.nm.malformed[0]),
+                      "the copy is not a well-formed structure: %s" % ", ".join(sorted(set(cv.nm.malformed))), detail)
+        return None
+
     # ---- shared id-sets ------------------------------------------------------------------
     w_src = U.Walk(src)
-    w_cp = U.Walk(cp, skip_node_attrs=ignore)
     ns = src if kind == "ns" else src.taxon_namespace
-    if mode == "none":
-        allowed = set()
-    elif mode == "ns":
-        allowed = U.Walk(ns).mutable_ids()
-    elif mode == "taxa":
-        allowed = set()
-        for t in ns._taxa:
-            allowed |= U.Walk(t).mutable_ids()
-    else:   # shallow
-        allowed = U.Walk(ns).mutable_ids()
-        members_ = list(src._trees) if kind == "treelist" else list(src._taxon_sequence_map.values())
-        for mbr in members_:
-            allowed |= U.Walk(mbr).mutable_ids()
+    allowed = allowed_ids(kind, mode, src)
     shared = w_src.mutable_ids() & w_cp.mutable_ids()
     ctx.ev("shared-set-judged")
     ctx.ev("objects-walked", len(w_src.seen) + len(w_cp.seen))
-    bad = sorted(shared - allowed, key=lambda i: len(w_cp.path(i, 1000)))
-    reported = set()
-    for i in bad:
-        cat = w_cp.seen[i][0]
-        k = (cat, w_cp.last_attr(i))
-        if k in reported:
-            continue
-        reported.add(k)
-        ctx.violation("%s|shared-mutable-object|%s@%s" % (op, cat, k[1]),
-                      "%s reachable from source and copy (%d such objects in all) although the route documents %s as shared" % (
-                          cat, len(bad), {"none": "nothing", "ns": "only the namespace and its taxa",
-                                          "taxa": "only the taxa", "shallow": "only the namespace and the members"}[mode]),
-                      dict(detail, path_in_copy=w_cp.path(i), path_in_source=w_src.path(i)))
-        if len(reported) >= 4:
-            break
+    bad = shared - allowed
+    if bad:
+        report_shared(ctx, op, "shared-mutable-object", bad, w_cp, w_src,
+                      "the route documents %s as shared" % MODE_TEXT[mode], detail)
     if mode in ("ns", "shallow") and kind != "ns":
         if cp.taxon_namespace is not src.taxon_namespace:
             ctx.violation("%s|namespace-not-shared" % op, "a namespace-scoped copy must refer to the source's TaxonNamespace object", detail)
     if mode == "taxa" and [id(t) for t in cp._taxa] != [id(t) for t in src._taxa]:
         ctx.violation("%s|taxa-not-shared" % op, "TaxonNamespace(ns) documents that the member Taxon objects are the same objects, in order", detail)
-    if ns2 is not None and cp.taxon_namespace is not ns2:
+    if plan.ns2 is not None and cp.taxon_namespace is not plan.ns2:
         ctx.violation("%s|given-namespace-not-used" % op, "the copy does not refer to the TaxonNamespace passed in", detail)
+    if sibling is not None:
+        first, mode1, skip1 = sibling
+        w_first = U.Walk(first, skip_node_attrs=skip1)
+        both = allowed if mode1 == mode else (allowed & allowed_ids(kind, mode1, src))
+        ctx.ev("second-copy-judged")
+        bad2 = (w_first.mutable_ids() & w_cp.mutable_ids()) - both
+        if bad2:
+            report_shared(ctx, op, "second-copy-shares-with-first", bad2, w_cp, w_first,
+                          "two copies of one source may share only what both routes document as shared", detail,
+                          names=("second_copy", "first_copy"))
 
     # ---- signatures ----------------------------------------------------------------------
-    cv = U.View(kind, cp, ignore_node_attrs=ignore)
     a, b = sv.sig, cv.sig
-    if want_label is not None:
+    if plan.labels is not None:
+        got_label = cp.__dict__.get("_label")
+        cand = [x for x in plan.labels if X._atom(x) == X._atom(got_label)
+                or (x is not None and got_label is not None and str(x) == str(got_label))]     # a label may be normalised to text
+        ctx.ev("label-argument-judged")
+        if not cand:
+            ctx.violation("%s|label-argument-not-used" % op,
+                          "the copy's label is %r, the call asked for %s" % (got_label, " or ".join(repr(x) for x in plan.labels)), detail)
         # expectation = the source as it would look with the requested label (bound annotations show it too)
+        lab = cand[0] if cand else plan.labels[0]
         old_label = src.label
-        src.label = want_label
+        src.label = lab
         try:
             a = dict(sv.take())
         finally:
@@ -521,7 +1003,7 @@ def judge(ctx, kind, route, src, rng, chain=None, detail=None, journal_steps=Non
     if bound_failed:
         skip.update(["annotations", "list-annotations", "ns-annotations", "sequence-annotations"])
     if extract:
-        only = EXTRACT_ONLY
+        only = ["rooting", "tree-label"] if ep.whole_tree else []
     if route == "ctor-otherns":
         skip.update(["taxa", "bipartitions", "tree-namespaces"] + list(NS_COMPONENTS))
         for k, v in b.items():
@@ -529,6 +1011,7 @@ def judge(ctx, kind, route, src, rng, chain=None, detail=None, journal_steps=Non
                 ctx.violation("%s|taxon-not-in-target-namespace" % op, "a copied node/sequence refers to a Taxon outside the given namespace", detail)
                 break
     if mode == "shallow":
+        # depth 0 is not named by the statement: member identity, container independence, label, top-level annotations
         only = ["list-meta", "matrix-meta", "taxa", "taxon-labels"]
         top = "list-annotations" if kind == "treelist" else "annotations"
         if '"ref"' in U.json.dumps(a.get(top)):
@@ -536,6 +1019,9 @@ def judge(ctx, kind, route, src, rng, chain=None, detail=None, journal_steps=Non
             ctx.note("shallow-copy-annotation-value-referring-to-a-member-not-judged")
         else:
             only.append(top)
+        for comp in ("list-tree-type", "list-comments", "comments", "alphabets"):
+            if comp in a and a.get(comp) != b.get(comp):
+                ctx.note("shallow-copy-not-judged:%s-differs:%s" % (comp, kind))
         ident_key = "#trees-identity" if kind == "treelist" else None
         if ident_key and a[ident_key] != b[ident_key]:
             ctx.violation("%s|shallow-copy-members-differ" % op, "a shallow copy must hold the same member objects in the same order", detail)
@@ -554,6 +1040,21 @@ def judge(ctx, kind, route, src, rng, chain=None, detail=None, journal_steps=Non
         if len(seen_cls) >= 3:
             break
     if extract:
+        want = expected_extraction(ctx, op, ep, cp.__dict__.get("_seed_node"), detail)
+        xdiffs, xnotes, njudged = X.compare(cp.__dict__.get("_seed_node"), want, ep.attr, ep.node_type)
+        ctx.ev("extract-oracle-judged")
+        ctx.ev("extract-nodes-judged", njudged)
+        ctx.ev("extract-api:%s" % ep.api)
+        if ep.filtered:
+            ctx.ev("extract-filtered-judged")
+            if ep.suppress and X.has_unary(ep.plain):
+                ctx.ev("extract-merge-judged")
+        for n_ in xnotes:
+            ctx.note(n_)
+        for comp, where, got, wanted in xdiffs[:3]:
+            ctx.violation("%s|signature-differs|%s" % (op, comp),
+                          "the extracted tree differs from what the source and the arguments determine in %s" % comp,
+                          dict(detail, where=where, got=got, expected=wanted))
         for comp in ("comments", "annotations", "extras"):
             flat = repr(b.get(comp))
             empty = {"comments": flat.replace("['l', []]", "").strip("[], ") == "",
@@ -569,12 +1070,26 @@ def judge(ctx, kind, route, src, rng, chain=None, detail=None, journal_steps=Non
     # ---- mutation journal -------------------------------------------------------------------
     if journal_steps is None:
         journal_steps = 12 if (tier or ctx.tier) == "quick" else 16
-    run_journal(ctx, op, kind, mode, sv, cv, rng, detail, journal_steps)
+    if journal_steps:
+        run_journal(ctx, op, kind, mode, sv, cv, rng, detail, journal_steps)
+
+    # ---- the edited source is copied a second time ---------------------------------------------
+    if recopy is None:
+        recopy = sibling is None and rng.random() < (0.5 if (tier or ctx.tier) == "quick" else 0.35)
+    if recopy and sibling is None and kind in ("tree", "treelist") and \
+            max([tree_depth(t) for t in ([src] if kind == "tree" else list(src))] or [0]) > MAX_DEPTH:
+        ctx.note("second-copy-skipped:the-journal-made-the-source-deeper-than-%d-levels" % MAX_DEPTH)
+        recopy = False
+    if recopy and sibling is None:
+        route2 = route if rng.random() < 0.5 else rng.choice(ROUTES[kind])
+        ctx.ev("second-copy:%s" % ("same-route" if route2 == route else "other-route"))
+        judge(ctx, kind, route2, src, rng, chain=chain, detail=dict(detail, first_route=route, second_copy=True),
+              journal_steps=0, tier=tier, sibling=(cp, mode, ignore))
     return cp
 
 
 def judge_bound(ctx, op, opx, sv, cv, detail, mode):
-    """attribute-bound annotations of the copy follow the copy's attributes."""
+    """attribute-bound annotations of the copy follow the copy's attributes (owners: structural objects and annotations)."""
     failed = False
     so = dict(sv.owners())
     for name, obj in cv.owners():
@@ -588,10 +1103,15 @@ def judge_bound(ctx, op, opx, sv, cv, detail, mode):
         for a1, a2 in zip(la, lb):
             if not a1.__dict__.get("is_attribute") or not a2.__dict__.get("is_attribute"):
                 continue
+            if not (isinstance(a1._value, tuple) and len(a1._value) == 2):
+                continue
             sname = sv.nm.get(a1._value[0])
             if sname is None:
+                ctx.note("bound-annotation-with-unnamed-owner-not-judged:%s" % type(a1._value[0]).__name__)
                 continue
             ctx.ev("bound-follow-judged")
+            if "/ann:" in sname:
+                ctx.ev("bound-to-annotation-judged")
             if not (isinstance(a2._value, tuple) and len(a2._value) == 2):
                 continue     # malformed: the signature comparison reports it
             owner2, attr = a2._value
@@ -607,10 +1127,11 @@ def judge_bound(ctx, op, opx, sv, cv, detail, mode):
                 continue
             if attr not in SAFE_BOUND:
                 continue
-            target = cv.nm.objs[cname]
+            target = cv.nm.lookup(cname)
             try:
                 old = getattr(target, attr)
             except Exception:
+                ctx.note("bound-attribute-unreadable-not-judged:%s" % attr)
                 continue
             sentinel = SAFE_BOUND[attr]
             try:
@@ -619,7 +1140,7 @@ def judge_bound(ctx, op, opx, sv, cv, detail, mode):
                 src_got = a1.value
             finally:
                 setattr(target, attr, old)
-            shared_owner = target is sv.nm.objs.get(sname)
+            shared_owner = target is sv.nm.lookup(sname)
             if got != sentinel:
                 failed = True
                 ctx.violation("%s|bound-annotation-does-not-follow-copy" % op,
@@ -729,11 +1250,11 @@ def run_directed(case, ctx, rng):
             ctx.sample({"kind": "directed", "name": name, "smallest_failing_depth": hi,
                         "recursionlimit": sys.getrecursionlimit()})
         tree = bridge.build_tree(caterpillar(400), ns, True)
-        for route in ("deepcopy", "clone1", "ctor", "extract"):
-            judge(ctx, "tree", route, tree, rng, detail={"tree": "caterpillar, 400 levels"}, journal_steps=3)
+        for route in ("deepcopy", "clone1", "ctor", "extract", "extract-noref"):
+            judge(ctx, "tree", route, tree, rng, detail={"tree": "caterpillar, 400 levels"}, journal_steps=3, recopy=False)
         ok = bridge.build_tree(caterpillar(120), dendropy.TaxonNamespace(), True)
-        for route in ("deepcopy", "ctor"):
-            judge(ctx, "tree", route, ok, rng, detail={"tree": "caterpillar, 120 levels"}, journal_steps=3)
+        for route in ("deepcopy", "ctor", "clone1", "copy", "extract", "extract-filtered"):
+            judge(ctx, "tree", route, ok, rng, detail={"tree": "caterpillar, 120 levels"}, journal_steps=3, recopy=False)
     elif name == "copy-of-constructed-copy":
         # smallest witness: one node, one bound annotation on the tree, Tree(t) and then any deep route
         for route in ("deepcopy", "clone1", "ctor", "copy", "clone2", "extract"):
@@ -765,25 +1286,47 @@ def run_directed(case, ctx, rng):
                 judge(ctx, "matrix", route, m, rng, detail={"matrix": "1 x 2 DNA, label=%r, annotations_at(1) on a cell without character type" % label})
     elif name == "extract-unifurcation":
         spec = ref.S(None, [ref.S(None, [ref.S(None, [ref.S("A", length=1), ref.S("B", length=2)], length=1)], length=1), ref.S("C", length=3)])
-        for route in ("extract", "extract-noref"):
-            t = bridge.build_tree(spec, dendropy.TaxonNamespace(), True)
-            judge(ctx, "tree", route, t, rng, detail={"tree": ref.to_newick(spec)})
-
-
-def judge_extract_default_on_unary(ctx, src, detail):
-    """extract_tree() documents that unifurcations are only suppressed when nodes were filtered out."""
-    try:
-        cp = src.extract_tree()
-    except Exception as e:
-        ctx.unexpected("tree.extract", e, detail)
-        return
-    ctx.ev("extract-unary-judged")
-    a = [len(n._child_nodes) for n in U.raw_preorder(src)]
-    b = [len(n._child_nodes) for n in U.raw_preorder(cp)]
-    if a != b:
-        ctx.violation("tree.extract|unifurcations-suppressed-without-filter",
-                      "extract_tree() without a filter dropped %d outdegree-1 node(s) of its source" % (len(a) - len(b)),
-                      dict(detail, source_outdegrees=a[:40], copy_outdegrees=b[:40]))
+        for route in ("extract", "extract-noref", "extract-filtered", "extract-filtered", "extract-filtered"):
+            for rooted in (True, False, None):
+                t = bridge.build_tree(spec, dendropy.TaxonNamespace(), rooted, label="T")
+                for i, nd in enumerate(U.raw_preorder(t)):
+                    nd.label = "n%d" % i
+                    nd.edge.label = "e%d" % i
+                judge(ctx, "tree", route, t, rng, detail={"tree": ref.to_newick(spec), "rooted": rooted})
+    elif name == "extract-filtered-witnesses":
+        # every alias, both suppress values, on a tree whose filtered form has chains of outdegree-1 nodes
+        for k in range(24):
+            spec = gen.random_spec(rng, rng.choice([3, 5, 8]), p_poly=0.3, p_unary=0.25)
+            gen.decorate_lengths(spec, rng, rng.choice(("dyadic", "ints", "mixed_missing", "zeros")), root_length=k % 3 == 0)
+            t = make_tree(rng, spec, 2 if k % 2 else 0, rng.choice([None, True, False]), None, extra_taxa=1, boundary=k % 4 == 0)
+            judge(ctx, "tree", "extract-filtered", t, rng, detail={"tree": ref.to_newick(spec)}, journal_steps=6)
+    elif name == "user-made-alphabet":
+        # smallest witness of a user-made alphabet: one taxon, three cells
+        for route in ("deepcopy", "clone2", "clone1", "ctor", "clone-default"):
+            sa = dendropy.new_standard_state_alphabet("abc")
+            m = dendropy.StandardCharacterMatrix(default_state_alphabet=sa)
+            t = m.taxon_namespace.new_taxon("A")
+            m.new_sequence(t, m.coerce_values("abc"))
+            judge(ctx, "matrix", route, m, rng, detail={"matrix": "1 x 3 standard matrix over new_standard_state_alphabet('abc')"})
+    elif name == "derived-classes":
+        from . import _c12_sub as S
+        spec = ref.S(None, [ref.S(None, [ref.S("A", length=1), ref.S("B", length=2)], length=1), ref.S("C", length=3)])
+        for route in TREE_ROUTES:
+            ns = dendropy.TaxonNamespace(["A", "B", "C"])
+            t = S.build_tree(spec, ns, True, "t", S.SubTree, S.SubNode)
+            judge(ctx, "tree", route, t, rng, detail={"tree": "SubTree of SubNodes " + ref.to_newick(spec)})
+        for route in LIST_ROUTES:
+            ns = dendropy.TaxonNamespace(["A", "B", "C"])
+            tl = S.SubList(taxon_namespace=ns, tree_type=S.SubTree, label="l")
+            tl.comments.append("x")
+            tl.append(S.build_tree(spec, ns, True, "t", S.SubTree, S.SubNode))
+            judge(ctx, "treelist", route, tl, rng, detail={"list": "SubList(tree_type=SubTree) with one SubTree"})
+    elif name == "copy-twice":
+        # the same object is copied, edited, and copied again by every route (state kept between calls)
+        for kind, routes in (("tree", TREE_ROUTES), ("treelist", LIST_ROUTES), ("matrix", MATRIX_ROUTES), ("ns", NS_ROUTES)):
+            for route in routes:
+                src, desc = make_source(kind, rng, "quick", 1)
+                judge(ctx, kind, route, src, rng, detail=desc, journal_steps=4, recopy=True)
 
 
 def run_case(case, ctx):
@@ -802,7 +1345,7 @@ def run_case(case, ctx):
             if deco:
                 gen.decorate_lengths(spec, rng, rng.choice(("dyadic", "ints", "mixed_missing")), root_length=rng.random() < 0.3)
             src = make_tree(rng, spec, deco, rng.choice([None, True, False]), rng.choice([None, "imm", "mut"]) if deco else None,
-                            extra_taxa=1 if deco else 0)
+                            extra_taxa=1 if deco else 0, boundary=bool(deco) and rng.random() < 0.3)
             detail = {"tree": ref.to_newick(spec), "deco": deco}
             judge(ctx, "tree", case["route"], src, rng, detail=detail)
             if case["idx"] == 0 and case["route"] == "deepcopy":
@@ -812,8 +1355,11 @@ def run_case(case, ctx):
         k = rng.choice(["tree"] * 5 + ["treelist"] * 2 + ["matrix"] * 2 + ["ns"])
         deco = rng.choice([0, 1, 2, 2])
         tier = case.get("tier") or ctx.tier
-        src, desc = make_source(k, rng, tier, deco)
-        route = rng.choice(ROUTES[k])
+        src, desc = make_source(k, rng, tier, deco, ctx)
+        routes = ROUTES[k]
+        if k == "tree":
+            routes = routes + ("extract-filtered", "extract-filtered")      # the route with the largest option vector
+        route = rng.choice(routes)
         chain = rng.choice(CHAINS) if k != "ns" else rng.choice((None, None, "ctor", "deepcopy"))
         detail = dict(desc, deco=deco)
         if chain:
@@ -827,6 +1373,9 @@ def run_case(case, ctx):
                 ok = False
             if not ok:
                 return
+        if rng.random() < 0.3:
+            preuse(ctx, k, src, rng)
+            detail["used_before_copy"] = True
         judge(ctx, k, route, src, rng, chain=chain, detail=detail, tier=tier)
         if case["i"] < 6:
             ctx.sample({"case": case, "kind": k, "route": route, "chain": chain, "source": detail})
